@@ -1,5 +1,15 @@
 package checks
 
-import "encoding/hex"
+import (
+	"encoding/hex"
+	"sync"
+)
+
+type syncMutex = sync.Mutex
 
 func hexDecodeString(s string) ([]byte, error) { return hex.DecodeString(s) }
+
+var cwdMu syncMutex
+
+func chdirLock()   { cwdMu.Lock() }
+func chdirUnlock() { cwdMu.Unlock() }
